@@ -4,7 +4,7 @@
 //   T <proc#> <tid> <start_ns> <main 0|1>    add_thread                        -> thread #k
 //   N <thread#> <name>                       set_thread_name
 //   E <thread#> <end_ns>                     set_thread_end_time
-//   L <name>                                 add_lib (debug id derived from the name) -> lib #k
+//   L <name> [<variant>]                     add_lib (path /lib/<variant>/<name>; debug id derived from name and variant) -> lib #k
 //   Y <lib#> <addr:size:name>...             set_lib_symbol_table (size 0 = unknown size)
 //   M <proc#> <lib#> <start> <end> <rel>     add_lib_mapping
 //   H <thread#> <lib#> <addr> <size> <name>  handle_for_native_symbol (size 0 = unknown)     -> native symbol #k (belongs to that thread)
@@ -140,16 +140,19 @@ pub fn run(line: &str) -> String {
                 "E" => profile.set_thread_end_time(threads[t[1].parse::<usize>().unwrap()], ns(t[2])),
                 "L" => {
                     let name = t[1].to_string();
+                    // an optional variant: same file name, another directory and debug id
+                    let variant = t.get(2).map(|s| s.to_string());
+                    let idsrc = format!("{}{}", name, variant.clone().unwrap_or_default());
                     let mut idb = [0u8; 16];
-                    for (i, b) in name.bytes().enumerate() {
+                    for (i, b) in idsrc.bytes().enumerate() {
                         idb[i % 16] ^= b.wrapping_mul(31).wrapping_add(i as u8);
                     }
                     let hex: String = idb.iter().map(|b| format!("{:02X}", b)).collect();
                     libs.push(profile.add_lib(LibraryInfo {
                         name: name.clone(),
                         debug_name: name.clone(),
-                        path: format!("/lib/{name}"),
-                        debug_path: format!("/lib/{name}"),
+                        path: variant.as_ref().map_or(format!("/lib/{name}"), |v| format!("/lib/{v}/{name}")),
+                        debug_path: variant.as_ref().map_or(format!("/lib/{name}"), |v| format!("/lib/{v}/{name}")),
                         debug_id: debugid::DebugId::from_breakpad(&format!("{hex}0")).unwrap(),
                         code_id: None,
                         arch: None,
